@@ -78,6 +78,9 @@ def gen_children_seq(rng, model, n, allow_nn, maxlen=5):
     N = len(model)
     xs = []
     cur = list(model.children[n])
+    if len(cur) > 24 and rng.random() < 0.6:
+        # wide node: re-assign (almost) all of its children, in another order
+        maxlen = len(cur) + 8
     mode = rng.random()
     if cur and mode < 0.7:
         rng.shuffle(cur) if rng.random() < 0.5 else None
@@ -168,7 +171,7 @@ def exec_op(world, op, guard_seconds=1.5):
     prev = ACTIVE[0]
     ACTIVE[0] = world
     try:
-        with OpGuard(guard_seconds):
+        with OpGuard(guard_seconds, getattr(world, "rlimit", None)):
             if kind == "parent":
                 world.nodes[op["n"]].parent = materialise_item(world, op["p"])
             elif kind == "children":
